@@ -82,7 +82,8 @@ Fixpoint uvarint_go (fuel : nat) (i value : Z) (s : bytes) : option (Z * bytes) 
   end.
 Definition uvarint (s : bytes) : option (Z * bytes) := uvarint_go 6 0 0 s.
 
-(* TaggedFields.decode: tags strictly increasing; data.read(size) tolerates a short read *)
+(* TaggedFields.decode: tags strictly increasing; a value shorter than its declared size is an under-run
+   (ValueError since /repo 68a8838 "fix: a tagged field cut short is a decoding error"; before, data.read(size) tolerated it) *)
 Fixpoint tags_go (fuel : nat) (n prev : Z) (s : bytes) : option bytes :=
   if n <=? 0 then Some s else
   match fuel with
@@ -95,7 +96,8 @@ Fixpoint tags_go (fuel : nat) (n prev : Z) (s : bytes) : option bytes :=
           match uvarint s1 with
           | None => None
           | Some (size, s2) =>
-              tags_go f (n - 1) tag (skipn (Z.to_nat (Z.min size (Z.of_nat (length s2)))) s2)
+              if Z.of_nat (length s2) <? size then None
+              else tags_go f (n - 1) tag (skipn (Z.to_nat size) s2)
           end
       end
   end.
